@@ -315,9 +315,14 @@ func c04Features(cs c04Case) (finding map[string]bool, labels map[string]bool, a
 			if !ok || nd.Kind != overlay.Dir || !nd.Implicit {
 				continue
 			}
+			// (with a requirer only entries that are certainly unpacked count)
+			reqSet := map[string]bool{}
+			for _, r := range cs.Require {
+				reqSet[r] = true
+			}
 			nonDirBelow := false
 			for q, m := range final {
-				if overlay.Under(q, a) && m.Kind != overlay.Dir {
+				if overlay.Under(q, a) && m.Kind != overlay.Dir && (!cs.UseRequirer || requiredBy(reqSet, q)) {
 					nonDirBelow = true
 				}
 			}
@@ -1133,6 +1138,14 @@ func genC04(col *ev.Collector) func(t *rapid.T) c04Case {
 				}
 				col.Excluded(clsRequirerUnlinks)
 				cs.Require = append(cs.Require, un...)
+			}
+		}
+		if cs.UseRequirer {
+			// a known class that only arises together with the drawn requirer: fall back to
+			// requiring everything
+			if cl := known(cs); cl != "" {
+				col.Excluded(cl)
+				cs.UseRequirer, cs.Require = false, nil
 			}
 		}
 		return cs
